@@ -242,6 +242,9 @@ class Run:
         strata = {}
         for name, (q, t) in self.mod.STRATA.items():
             n = q if self.tier == "quick" else t
+            sc = float(os.environ.get("VERIF_SCALE", "1") or 1)      # debugging aid only
+            if sc != 1 and n > 0:
+                n = max(1, int(n * sc))
             if n > 0:
                 strata[name] = n
         nw = max(1, min(self.jobs, max(1, sum(strata.values()) // getattr(self.mod, "MIN_CASES_PER_WORKER", 20))))
